@@ -41,6 +41,13 @@ def observe(case, cat, edges, closed, P, ci):
     if ci % 3 == 1:
         # trees cached for the same edges but the other closed side must not be reused
         cat.build_trees(edges, closed="left" if closed == "right" else "right")
+        case["history"] = "trees built before for the same edges and the other closed side"
+    if ci % 3 == 2:
+        # ... nor trees cached for edges that differ from the requested ones by one unit in the last place (the same
+        # numbers computed another way, e.g. literals vs. arange): a redshift ON an edge changes its bin
+        near = np.array([np.nextafter(e, np.inf if k % 2 == 0 else -np.inf) for k, e in enumerate(edges)])
+        cat.build_trees(near, closed=closed)
+        case["history"] = "trees built before for edges one ulp away: " + repr(near.tolist())
     cat.build_trees(edges, closed=closed)
     trees_num, trees_sum = [], []
     for p in range(P):
@@ -177,7 +184,8 @@ def run(prop, tier, seed, replay):
                 gen_h.append([Fraction(t) for t in toks[2 + B:2 + 2 * B]])
             pos += 1
         rep = {"closed": case["closed"], "edges": case["edges"].tolist(), "z": case["z"].tolist(),
-               "w": case["w"].tolist(), "patch": case["pid"].tolist(), "weighted": case["weighted"]}
+               "w": case["w"].tolist(), "patch": case["pid"].tolist(), "weighted": case["weighted"],
+               "history_of_the_cache": case.get("history", "fresh cache")}
         # counts: same membership with unit weights
         for p in range(P):
             sel = case["pid"] == p
